@@ -38,7 +38,10 @@ namespace __cxxabiv1 { struct __cxa_eh_globals; extern "C" __cxa_eh_globals* __c
 
 namespace vrt {
 
-constexpr int MAXF = 8;
+#ifndef VRT_MAXF
+#define VRT_MAXF 8      // fiber slots per case; the "crowd" build flavour raises it to hold hundreds of blocked waiters
+#endif
+constexpr int MAXF = VRT_MAXF;
 
 // ------------------------------------------------------------------------------------------ clocks
 struct VC {
@@ -234,6 +237,7 @@ struct MutexCore {
     long excl_acqs = 0;                // number of exclusive acquisitions so far
     long shared_acqs = 0;
     uint8_t shared_by[MAXF] = {0};
+    uint32_t contended_by[MAXF] = {0};   // per fiber: blocking / timed acquisitions of THIS mutex that found it unavailable
     VC L, Lr;
     bool can_acquire_excl() const { return owner < 0 && nshared == 0; }
     bool can_acquire_shared() const { return owner < 0; }
@@ -309,12 +313,15 @@ inline Fiber* pick() {
         }
         // deadlock
         std::string m = "no runnable fiber:";
+        int listed = 0, more = 0;
         for (Fiber* f : R.fibers) {
             if (f->done) continue;
+            if (listed >= 10) { more++; continue; }
             char b[64];
             std::snprintf(b, sizeof b, " f%d[pend=%d%s]", f->id, (int)f->pend, f->frozen ? ",frozen" : "");
-            m += b;
+            m += b; listed++;
         }
+        if (more) m += " (+" + std::to_string(more) + " more)";
         fail("deadlock", m);
     }
     if (n == 0) { // only yielded fibers can run
